@@ -10,10 +10,17 @@ from vf.core import jsonmodel, wire
 from vf.core.runner import Ctx, HarnessError, Tally
 from vf.core.schema import Msg
 from vf.core.smallscope import Fail, hkey, replay_case, run_universe
-from vf.core.universe import TypeCase, Universe, get_universe
+from vf.core.universe import TypeCase, Universe, fresh_variant, get_universe
 
 LEVEL = "model_checking"
 ROUTES = ("fresh", "ctor", "setattr", "inplace", "parse", "from_dict")
+
+
+def _nan_or_negzero(v) -> bool:
+    """NaN and -0.0 are not the default 0.0 of a float field although one is unequal to itself and
+    the other compares equal to 0.0 (the reference sends both)."""
+    import math
+    return isinstance(v, float) and (v != v or (v == 0 and math.copysign(1.0, v) < 0))
 
 
 def default_of(u: Universe, f):
@@ -53,7 +60,7 @@ def bp_presence(u: Universe, m: Msg, msg) -> Dict[str, bool]:
             rep[f.name] = betterproto.serialized_on_wire(v)
         else:
             d = default_of(u, f)
-            rep[f.name] = not (v == d) or (isinstance(v, float) and v != v)
+            rep[f.name] = not (v == d) or _nan_or_negzero(v)
     return rep
 
 
@@ -71,7 +78,7 @@ def ref_presence(u: Universe, m: Msg, ref) -> Dict[str, bool]:
             rep[f.name] = ref.HasField(f.pname) and (x.seconds != 0 or x.nanos != 0)
         else:
             v = getattr(ref, f.pname)
-            rep[f.name] = not (v == default_of(u, f)) or (isinstance(v, float) and v != v)
+            rep[f.name] = not (v == default_of(u, f)) or _nan_or_negzero(v)
     return rep
 
 
@@ -181,6 +188,8 @@ def oracle_routed(u, tc, aval, route, tally):
 
 
 def routes_fn(tc, aval):
+    if fresh_variant(tc.msg, aval):
+        return ROUTES + ("ctor_fresh", "setattr_fresh")
     return ROUTES
 
 
